@@ -20,7 +20,7 @@ for d in sorted(glob.glob('/verif/seeded/C*/')):
     mech=[l for l in conf.splitlines() if 'mechanism=' in l]
     rows.append((n,meta.get('property'),meta.get('needs','')[:160].replace('\n',' ').replace('|','/'),
                  ('caught (exit 1)' if m and m.group(2)=='1' else
-                  ('not caught: judged outside the property (see meta.json)' if meta.get('evaluation_note') else 'MISSED')), (mech[0].split('mechanism=')[1].split(' ')[0] if mech else '')))
+                  ('not caught by the check of this property: see evaluation_note in meta.json' if meta.get('evaluation_note') else 'MISSED')), (mech[0].split('mechanism=')[1].split(' ')[0] if mech else '')))
 with open('/verif/seeded/INDEX.md','w') as f:
     f.write('# Seeded changes (independently produced, confirmed, evaluated)\n\nEach directory: `patch.diff` (against /repo HEAD at the time of the last re-confirmation), the demonstration `demo.py`, `meta.json` (property, what it needs to manifest, what was run), `confirm.txt`.\n\n| seeded change | property | needs | quick check | first mechanism reported |\n|---|---|---|---|---|\n')
     for r in rows: f.write('| %s | %s | %s | %s | `%s` |\n'%r)
